@@ -327,6 +327,14 @@ RESTART:
 		return tmconsensus.HandleProposedHeaderBadPrevCommitProofPubKeyHash
 	}
 
+	// The header must extend the header we are committing at the previous height.
+	// If it names another predecessor, then whatever its PrevCommitProof carries
+	// is not a majority for our committing block.
+	if ph.Header.Height > m.initialHeight &&
+		!bytes.Equal(ph.Header.PrevBlockHash, checkResp.PrevBlockHash) {
+		return tmconsensus.HandleProposedHeaderBadPrevCommitVoteCount
+	}
+
 	// The PrevCommitProof should be in a finalized form,
 	// so we need to use the CommonMessageSignatureProofScheme to validate it.
 	// But in order to do so, we need to convert the PrevCommitProof to the finalized form.
